@@ -466,6 +466,15 @@ func (o *Oracle) judgeProxyCallback(e *Exchange, pol *Policy) {
 	} else if *sp != *cp {
 		o.violate(e, "C06.A1-flow-binding", "session set although state and CSRF cookie open to different flow records", "variant", "crossed-flows")
 	}
+	// "both sealed by this proxy" is a fact about the wire, not about what the cipher code (which the harness shares with
+	// the proxy) is willing to open: the strings must be ones the proxy emitted (or the harness minted under its secret)
+	for _, pv := range [][2]string{{"proxy-state", state}, {"proxy-csrf", csrf}} {
+		if _, known := o.sealed[pv[1]]; !known && pv[1] != "" {
+			o.violate(e, "C06.A1-flow-binding", fmt.Sprintf("session set although the %s presented is a string the proxy never sealed (derived from a genuine value by %q)", pv[0], o.corrupted[pv[1]]), "variant", "never-sealed")
+			o.violate(e, "C02.A4-only-unmodified-values-open", fmt.Sprintf("a %s value that was never sealed by sso was accepted (derived from a genuine value by %q)", pv[0], o.corrupted[pv[1]]),
+				"kind", pv[0], "how", o.corrupted[pv[1]])
+		}
+	}
 	if codeSess == nil || !redeemOK {
 		o.violate(e, "C06.A1-flow-binding", fmt.Sprintf("session set although code genuine=%v redeemed=%v", codeSess != nil, redeemOK), "variant", "code")
 	}
